@@ -77,6 +77,29 @@ func consumerModule() []byte {
 		Body: wb.Cat(wb.LocalGet(0), []byte{wasm.OpcodeCallIndirect}, wb.U32(t1), []byte{0})})
 	m.AddFunc(wb.Func{Results: []byte{wb.I64}, Export: "g", Body: wb.GlobalGet(3)})
 	m.AddFunc(wb.Func{Params: []byte{wb.I64}, Export: "setg", Body: wb.Cat(wb.LocalGet(0), wb.GlobalSet(3))})
+	// more globals of the module's own BEHIND the imported ones (global indices 4..9 = section entries 1..6): three
+	// immutable constants, then three mutable counters with constant initialisers.  Index arithmetic that confuses the
+	// global index space (imports first) with the global section shows here: each counter is private to its instance.
+	cg := func(t byte, mut bool, op byte, data []byte) {
+		m.M.GlobalSection = append(m.M.GlobalSection, wasm.Global{Type: wasm.GlobalType{ValType: t, Mutable: mut}, Init: wasm.ConstantExpression{Opcode: op, Data: data}})
+	}
+	cg(wb.I32, false, wasm.OpcodeI32Const, leb128.EncodeInt32(100))
+	cg(wb.I64, false, wasm.OpcodeI64Const, leb128.EncodeInt64(200))
+	cg(wb.I32, false, wasm.OpcodeI32Const, leb128.EncodeInt32(300))
+	cg(wb.I32, true, wasm.OpcodeI32Const, leb128.EncodeInt32(1))
+	cg(wb.I64, true, wasm.OpcodeI64Const, leb128.EncodeInt64(2))
+	cg(wb.I32, true, wasm.OpcodeI32Const, leb128.EncodeInt32(3))
+	// counters() = k4 + k5 + k6 (constants) combined with the three counters into one i64
+	m.AddFunc(wb.Func{Results: []byte{wb.I64}, Export: "counters", Body: wb.Cat(
+		wb.GlobalGet(7), wb.Op(wasm.OpcodeI64ExtendI32U), wb.I64Const(40), wb.Op(wasm.OpcodeI64Shl),
+		wb.GlobalGet(8), wb.I64Const(20), wb.Op(wasm.OpcodeI64Shl), wb.Op(wasm.OpcodeI64Add),
+		wb.GlobalGet(9), wb.Op(wasm.OpcodeI64ExtendI32U), wb.Op(wasm.OpcodeI64Add))})
+	m.AddFunc(wb.Func{Results: []byte{wb.I64}, Export: "consts", Body: wb.Cat(
+		wb.GlobalGet(4), wb.Op(wasm.OpcodeI64ExtendI32U), wb.I64Const(40), wb.Op(wasm.OpcodeI64Shl),
+		wb.GlobalGet(5), wb.I64Const(20), wb.Op(wasm.OpcodeI64Shl), wb.Op(wasm.OpcodeI64Add),
+		wb.GlobalGet(6), wb.Op(wasm.OpcodeI64ExtendI32U), wb.Op(wasm.OpcodeI64Add))})
+	m.AddFunc(wb.Func{Params: []byte{wb.I32}, Export: "bump", Body: wb.Cat(
+		wb.LocalGet(0), wb.GlobalSet(7), wb.LocalGet(0), wb.Op(wasm.OpcodeI64ExtendI32U), wb.GlobalSet(8), wb.LocalGet(0), wb.GlobalSet(9))})
 	return m.Bytes()
 }
 
@@ -101,11 +124,13 @@ func observeIC(ctx context.Context, mod api.Module) string {
 			s += fmt.Sprintf(" slot%d=%d", i, r[0])
 		}
 	}
-	g, err := mod.ExportedFunction("g").Call(ctx)
-	if err != nil {
-		s += " g=err"
-	} else {
-		s += fmt.Sprintf(" g=%x", g[0])
+	for _, fn := range []string{"g", "counters", "consts"} {
+		g, err := mod.ExportedFunction(fn).Call(ctx)
+		if err != nil {
+			s += " " + fn + "=err"
+		} else {
+			s += fmt.Sprintf(" %s=%x", fn, g[0])
+		}
 	}
 	return s
 }
@@ -129,7 +154,7 @@ func expectIC(v impVals) string {
 		}
 		s += fmt.Sprintf(" slot%d=%d", i, k)
 	}
-	return s + fmt.Sprintf(" g=%x", v.Init)
+	return s + fmt.Sprintf(" g=%x counters=%x consts=%x", v.Init, uint64(1)<<40+uint64(2)<<20+3, uint64(100)<<40+uint64(200)<<20+300)
 }
 
 func instantiateIC(ctx context.Context, rt wazero.Runtime, cm wazero.CompiledModule, v impVals, name string) (api.Module, api.Module, string) {
@@ -181,6 +206,7 @@ func impConstStage(r *rand.Rand) {
 					live = append(live, mod)
 					// let the instances diverge: each sets its own global
 					mod.ExportedFunction("setg").Call(ctx, uint64(1000+i))
+					mod.ExportedFunction("bump").Call(ctx, uint64(50+i))
 					after = append(after, observeIC(ctx, mod))
 				}
 				// the lone instance: fresh runtime, own compilation, same imports
